@@ -12,7 +12,7 @@ def validate(pid, out, path, summ, mode, name, sub):
     evs = V.read_ndjson(path)
     m = min(v.matched, len(evs) - 1)
     bad = evs[m]
-    start = max(i for i in range(m + 1) if evs[i]["op"] == "fwdreset")
+    start = max([i for i in range(m + 1) if evs[i]["op"] == "fwdreset"] or [0])
     if v.reason and v.reason.startswith("invariant"):
         sig = "forward|%s|%s" % (mode, v.reason.split()[1])
     else:
